@@ -250,6 +250,7 @@ type World struct {
 	Judge  map[string]bool // nil: judge everything
 	Ledger *Ledger
 	Yield  func(site string)
+	OpOf   func() (string, bool) // consim: operation of the calling goroutine
 	// options
 	CheckReads  bool // C19 read-range oracle
 	CheckWrites bool // C09 append-only monitor
